@@ -22,7 +22,7 @@ from ..plot import (
     plot_trials_alt,
 )
 from ..reusable import ReusableOptimizer
-from ..scoring import get_score_fn
+from ..scoring import ensure_basic_quantities_are_computed, get_score_fn
 from ..utils import BadTrial, get_rng
 
 
@@ -312,6 +312,8 @@ class ComputeScore:
             trial["score"] = self.score_fn(trial) ** self.score_compression
             # random smudge is for baytune/scikit-learn nan/inf bug
             trial["score"] += self.rng.gauss(0.0, self.score_smudge)
+            # not every objective (e.g. 'limit', custom callables) fills these
+            ensure_basic_quantities_are_computed(trial)
         except BadTrial:
             trial = {
                 "score": float("inf"),
